@@ -4,6 +4,7 @@ Hdl21 Parameters and Param-Classes
 
 # Std-Lib Imports
 import dataclasses, inspect, json, hashlib
+from decimal import Decimal
 from typing import Optional, Any, Type, TypeVar, Dict
 
 # PyPi Imports
@@ -277,6 +278,7 @@ def hdl21_naming_encoder(obj: Any) -> Any:
     from .instance import Instance
     from .generator import Generator
     from .primitives import Primitive, PrimitiveCall
+    from .prefix import Prefixed, _exact
 
     if isinstance(obj, (Instance,)):
         # Not supported as parameters
@@ -294,6 +296,15 @@ def hdl21_naming_encoder(obj: Any) -> Any:
     if isinstance(obj, ExternalModuleCall):
         # Mix the qualified class names/paths with the parameters
         return module_qualname(obj.module) + _unique_name(obj.params)
+
+    if isinstance(obj, Prefixed):
+        # Equal numbers get one name, however they are written: `1000 * m` is `1 * UNIT`.
+        # Encode the exact value (as text: a float would merge values that differ), not the (number, prefix) pair.
+        return "Prefixed:" + str(_exact(obj).normalize())
+
+    if isinstance(obj, Decimal):
+        # Exact, and independent of trailing zeros. The default encoder converts to float, merging unequal values.
+        return "Decimal:" + str(obj.normalize())
 
     if isinstance(obj, (set, frozenset)):
         # Sets iterate in hash order, which differs from one process to the next.
